@@ -2,6 +2,8 @@
 
 package raft
 
+import "io"
+
 // vh_replicate_step: one AppendEntries round of replicateTo on an arbitrary
 // leader (log in a window), with an arbitrary response from the follower.
 // C01.LEADER-TERM, C04.LEADER-BUILD, C05.FOLLOWER-MATCH, C12.BACKTRACK.
@@ -140,4 +142,83 @@ func vh_replicate_step() {
 	}
 	vAssert(r.leaderState.commitment.commitIndex >= preCommit, "C05.repl.commit-mono")
 	vReach("repl.end")
+}
+
+// vh_send_snapshot: sendLatestSnapshot on an arbitrary leader whose snapshot
+// store holds 0..2 snapshots, with an arbitrary follower response.
+// C12 (progress after a snapshot), C05.FOLLOWER-MATCH, C01.LEADER-TERM, C11 (what is shipped).
+func vh_send_snapshot() {
+	r, env := vNewRaft("L", vRaftOpts{n: 2, w: 1, shaped: true})
+	vAssume(vInvBasic(r, env))
+	vMakeLeader(r, "L", 0)
+	peer := r.configurations.latest.Servers[1]
+	s := r.leaderState.replState[peer.ID]
+	s.failures = vU64("failures")
+	vAssume(s.failures < 1<<40)
+	preNext := s.nextIndex
+	nSnap := vChoose("snapshots", 0, 2)
+	cfg := vConfig("snapcfg", 1, false)
+	for i := 0; i < nSnap; i++ {
+		id := "snapA"
+		if i == 1 {
+			id = "snapB"
+		}
+		env.snaps.metas = append(env.snaps.metas, &SnapshotMeta{Version: SnapshotVersionMax, ID: id, Index: vU64("snap.index"), Term: vU64("snap.term"),
+			Configuration: cfg.Clone(), ConfigurationIndex: vU64("snap.cfgIndex"), Size: vI64("snap.size")})
+	}
+	env.snaps.failOn = true
+	vf := &verifyFuture{}
+	vf.init()
+	vf.quorumSize = 100
+	vf.notifyCh = r.verifyCh
+	s.notify[vf] = struct{}{}
+	respTerm, respOK, rpcFail := vU64("resp.term"), vBool("resp.success"), vBool("rpc.fail")
+	var sent *InstallSnapshotRequest
+	nRPC := 0
+	env.trans.onSnapshot = func(id ServerID, a *InstallSnapshotRequest, resp *InstallSnapshotResponse, data io.Reader) error {
+		nRPC++
+		cp := *a
+		sent = &cp
+		vAssert(id == peer.ID, "C12.snap.rpc-to-own-peer")
+		if rpcFail {
+			return errInjected
+		}
+		resp.Term, resp.Success = respTerm, respOK
+		return nil
+	}
+	preMatch, hadSlot := r.leaderState.commitment.matchIndexes[peer.ID]
+	preFailures := s.failures
+	stop, err := r.sendLatestSnapshot(s)
+	postMatch := r.leaderState.commitment.matchIndexes[peer.ID]
+	if nRPC == 0 {
+		vCover("snap.not-sent")
+		// no snapshot, or the store failed: an error, no state change
+		vAssert(err != nil && !stop && s.nextIndex == preNext && postMatch == preMatch, "C12.snap.no-snapshot-no-effect")
+		vReach("snap.end")
+		return
+	}
+	vAssert(nRPC == 1, "C12.snap.one-rpc")
+	m := env.snaps.metas[0] // List returns newest first
+	vAssert(sent.LastLogIndex == m.Index && sent.LastLogTerm == m.Term && sent.ConfigurationIndex == m.ConfigurationIndex && sent.Size == m.Size && sent.SnapshotVersion == m.Version, "C11.snap.ships-newest-snapshot-meta")
+	vAssert(sent.Term == s.currentTerm && sent.Term == r.currentTerm, "C01.snap.request-carries-leader-term")
+	if rpcFail {
+		vCover("snap.rpc-error")
+		vAssert(err != nil && !stop && s.nextIndex == preNext && postMatch == preMatch && s.failures == preFailures+1, "C12.snap.rpc-error-counted-no-effect")
+	} else if respTerm > sent.Term {
+		vCover("snap.stale-term")
+		vAssert(stop && len(s.stepDown) == 1 && s.nextIndex == preNext && postMatch == preMatch, "C01.snap.newer-term-steps-down")
+		vAssert(vf.notifyCh == nil, "C09.snap.stale-term-votes-verify-down")
+	} else if respOK {
+		vCover("snap.success")
+		// progress: the next index moves past the snapshot, so the same snapshot is not sent again
+		vAssert(!stop && err == nil && s.nextIndex == m.Index+1, "C12.snap.next-index-past-snapshot")
+		if hadSlot {
+			vAssert(postMatch == vIte64(m.Index > preMatch, m.Index, preMatch), "C05.snap.match-is-snapshot-index")
+		}
+		vAssert(s.failures == 0, "C12.snap.failures-cleared")
+	} else {
+		vCover("snap.rejected")
+		vAssert(!stop && err == nil && s.nextIndex == preNext && postMatch == preMatch && s.failures == preFailures+1, "C12.snap.rejected-counted-no-effect")
+	}
+	vReach("snap.end")
 }
